@@ -22,9 +22,6 @@ Fixpoint enum_name (tbl : list (string * Z)) (v : Z) : option string :=
   | (n, x) :: r => if x =? v then Some n else enum_name r v
   end.
 
-Fixpoint mem_str (s : string) (l : list string) : bool :=
-  match l with [] => false | x :: r => (s =? x)%string || mem_str s r end.
-
 (* ---- the if/elif chain of ARMAttribute.__init__ / RISCVAttribute.__init__ on self.tag ---- *)
 Inductive aclass : Type :=
 | CFile      (* TAG_FILE: Elf_word value *)
